@@ -27,6 +27,12 @@ func c12Meta(m lint.LintMetadata, declared []string, implNonNil, instNonNil bool
 		}
 	}
 	zz.Assert(known, "every lint has a declared, known source")
+	// known to the library, not just declared: the source parser maps the label back to the same source
+	var parsed lint.LintSource
+	parsed.FromString(string(m.Source))
+	zz.Assert(parsed == m.Source, "every lint's source is one the library's source parser knows")
+	var dec lint.LintSource
+	zz.Assert(dec.UnmarshalJSON([]byte("\""+string(m.Source)+"\"")) == nil && dec == m.Source, "every lint's source decodes from its JSON form")
 	zz.Assert(implNonNil, "every lint has a non-nil constructor")
 	zz.Assert(instNonNil, "every lint constructor yields an implementation")
 	if !m.EffectiveDate.IsZero() && !m.IneffectiveDate.IsZero() {
